@@ -399,7 +399,7 @@ func projectDisp(s *vt.Sched, j int, qid string) ([]string, bool) {
 		if ev.Kind == "broadcast" && strings.HasPrefix(fn, "worker.") && mxHolder != t {
 			emit("? Broadcast issued without holding the worker mutex (a waiter between its check and its park can miss it)")
 		}
-		if (ev.Kind == "q:len" || ev.Kind == "ad:len") && wufStatus[t] != "" {
+		if (ev.Kind == "q:len" || ev.Kind == "ad:len" || (ev.Kind == "rlock" && fn == "Manager.Len")) && wufStatus[t] != "" {
 			wufSeenLen[t] = true
 		}
 		if (ev.Kind == "q:deq" || ev.Kind == "ad:deq") && inPNJ[t] > 0 && !recheckDone(t) {
